@@ -65,7 +65,7 @@ __CPROVER_requires(AA_CFM(data)->attrs_len <= CTL_PROTO_MAX_ATTRS && AA_CFM(data
 __CPROVER_requires(xv_ctl_g_namelen < XV_CTL_NAME_OBJ && __CPROVER_is_fresh(attr_name, xv_ctl_g_namelen + 1))
 __CPROVER_requires(attr_name[xv_ctl_g_namelen] == 0 && XV_NONUL96(attr_name, xv_ctl_g_namelen))
 __CPROVER_requires(len <= XV_CTL_LEN_MAX && len == xv_ctl_g_len && __CPROVER_is_fresh(value, len == 0 ? 1 : len))
-__CPROVER_assigns(AA_ADDS(attr_name, xv_ctl_g_namelen, len): AA_CFM(data)->attrs_len, __CPROVER_object_upto(&AA_ENTRY(data), XV_CTL_SIZEOF(AA_ENTRY(data))))
+__CPROVER_assigns(AA_ADDS(attr_name, xv_ctl_g_namelen, len): __CPROVER_object_upto(&AA_CFM(data)->attrs_len, XV_CTL_SIZEOF(size_t)), __CPROVER_object_upto(&AA_ENTRY(data), XV_CTL_SIZEOF(AA_ENTRY(data))))
 /* PO[C14] add_attr.table_bound */
 __CPROVER_ensures(AA_CFM(data)->attrs_len <= CTL_PROTO_MAX_ATTRS && \
                   AA_CFM(data)->attrs_len == xv_ctl_g_len0 + (AA_ADDS(attr_name, xv_ctl_g_namelen, len) ? 1 : 0))
@@ -94,6 +94,176 @@ __CPROVER_ensures(PGAA_CFM(response).attrs_len <= CTL_PROTO_MAX_ATTRS && \
                   PGAA_CFM(response).attrs_len == (xv_ctl_all_n < CTL_PROTO_MAX_ATTRS ? xv_ctl_all_n : CTL_PROTO_MAX_ATTRS))
 /* PO[C14] process_get_all_attr.reply_equals_in_process */
 __CPROVER_ensures(XV_CTL_ALL_ENTRY_I(&PGAA_CFM(response)))
+;
+
+/* ================================================================== the session table: struct ctl and its clients
+ * Representation invariant CTL_INV: 0..MAX_CLIENTS sessions; the listening descriptor and every session descriptor are
+ * non-negative and hold a LIVE xpoll registration of the owning socket's xpoll; the registration ids are pairwise distinct.
+ * Nothing is said about is_response_pending / pending_response: every contract holds for ANY previous content. */
+#define CTL_C(ctl, i) ((ctl)->clients[i])
+#define CTL_REG_OK(id) ((id) >= 0 && (id) < XV_CTL_REGS && xv_ctl_live[id])
+#define CTL_INV(ctl) ((ctl)->num_clients >= 0 && (ctl)->num_clients <= MAX_CLIENTS && (ctl)->socket->xpoll == xv_ctl_xpoll && \
+    (ctl)->server_fd >= 0 && CTL_REG_OK((ctl)->server_fd_reg_id) && \
+    ((ctl)->num_clients >= 1 ==> (CTL_C(ctl, 0).fd >= 0 && CTL_REG_OK(CTL_C(ctl, 0).fd_reg_id) && CTL_C(ctl, 0).fd_reg_id != (ctl)->server_fd_reg_id)) && \
+    ((ctl)->num_clients >= 2 ==> (CTL_C(ctl, 1).fd >= 0 && CTL_REG_OK(CTL_C(ctl, 1).fd_reg_id) && CTL_C(ctl, 1).fd_reg_id != (ctl)->server_fd_reg_id && \
+                                  CTL_C(ctl, 1).fd_reg_id != CTL_C(ctl, 0).fd_reg_id)))
+#define CTL_MEM(ctl) (__CPROVER_is_fresh(ctl, XV_CTL_SIZEOF(struct ctl)) && __CPROVER_is_fresh((ctl)->socket, sizeof(struct xcm_socket)))
+/* the header of struct ctl is never written after ctl_create */
+#define CTL_HDR_SAME(ctl) ((ctl)->socket == __CPROVER_old((ctl)->socket) && (ctl)->server_fd == __CPROVER_old((ctl)->server_fd) && \
+                           (ctl)->server_fd_reg_id == __CPROVER_old((ctl)->server_fd_reg_id))
+/* ghost counters do not overflow */
+#define CTL_GHOST_RANGE (XV_CTL_CNT_OK(xv_ctl_ep_ops) && XV_CTL_CNT_OK(xv_ctl_close_calls) && XV_CTL_CNT_OK(xv_ctl_fds_made) && XV_CTL_CNT_OK(xv_ctl_recv_calls) && \
+                         XV_CTL_CNT_OK(xv_ctl_send_calls) && XV_CTL_CNT_OK(xv_ctl_get_calls) && XV_CTL_CNT_OK(xv_ctl_all_calls) && XV_CTL_CNT_OK(xv_ctl_unlink_calls) && \
+                         XV_CTL_CNT_OK(xv_ctl_readable_calls))
+/* PASSIVITY towards the data path, at the xpoll.  xv_ctl_reg is an arbitrary registration id; the ghost constant
+ * xv_ctl_g_foreign says "it exists, is not one of this ctl's, and has event mask xv_ctl_g_fev".  CTL_FOREIGN is required and
+ * ensured by every function: a registration of the data path is never deleted, modified or taken over. */
+_Bool xv_ctl_g_foreign; int xv_ctl_g_fev;
+#define CTL_OWNS(ctl, r) ((r) == (ctl)->server_fd_reg_id || ((ctl)->num_clients >= 1 && (r) == CTL_C(ctl, 0).fd_reg_id) || \
+                          ((ctl)->num_clients >= 2 && (r) == CTL_C(ctl, 1).fd_reg_id))
+#define CTL_FOREIGN(ctl) (xv_ctl_g_foreign ==> (xv_ctl_reg >= 0 && xv_ctl_reg < XV_CTL_REGS && xv_ctl_live[xv_ctl_reg] && \
+                          xv_ctl_ev[xv_ctl_reg] == xv_ctl_g_fev && !CTL_OWNS(ctl, xv_ctl_reg)))
+/* ghost state every session-level function may write */
+#define CTL_EP_GHOSTS xv_errno, XV_CTL_EP_OBJS, xv_ctl_ep_ops
+#define CTL_SESSION(client, ctl) (xv_ctl_ci >= 0 && xv_ctl_ci < (ctl)->num_clients && (client) == &CTL_C(ctl, xv_ctl_ci))
+#define CTL_SAME(x) ((x) == __CPROVER_old(x))
+#define CTL_INC(x) ((x) == __CPROVER_old(x) + 1)
+#define CTL_MSG_SIZE sizeof(struct ctl_proto_msg)
+
+/* ------------------------------------------------------------------ client_send: hand the pending reply to send(2) */
+#define CS_GHOSTS xv_ctl_send_calls, xv_ctl_send_fd, xv_ctl_send_len, xv_ctl_send_rc, xv_ctl_send_errno, xv_ctl_send_buf, xv_ctl_send_j
+static int client_send(struct client *client, struct ctl *ctl)
+__CPROVER_requires(XV_CTL_Z_LO)
+__CPROVER_requires(XV_CTL_Z_HI)
+__CPROVER_requires(CTL_MEM(ctl) && CTL_INV(ctl) && CTL_SESSION(client, ctl) && CTL_GHOST_RANGE && CTL_FOREIGN(ctl))
+__CPROVER_assigns(CTL_EP_GHOSTS, CS_GHOSTS, client->is_response_pending)
+__CPROVER_ensures((__CPROVER_return_value == 0 || __CPROVER_return_value == -1) && CTL_INV(ctl) && CTL_FOREIGN(ctl))
+/* PO[C14] client_send.sends_the_pending_reply */
+__CPROVER_ensures(CTL_INC(xv_ctl_send_calls) && xv_ctl_send_fd == client->fd && xv_ctl_send_len == CTL_MSG_SIZE && xv_ctl_send_buf == &client->pending_response && \
+                  (xv_ctl_j < CTL_MSG_SIZE ==> xv_ctl_send_j == ((const uint8_t *)&client->pending_response)[xv_ctl_j]))
+/* PO[C14] client_send.outcome */
+__CPROVER_ensures(xv_ctl_send_rc >= 0 \
+        ? (__CPROVER_return_value == 0 && !client->is_response_pending && xv_ctl_ev[client->fd_reg_id] == EPOLLIN) \
+        : (client->is_response_pending == __CPROVER_old(client->is_response_pending) && CTL_SAME(xv_ctl_ep_ops) && \
+           __CPROVER_return_value == (xv_ctl_send_errno == EAGAIN ? 0 : -1)))
+;
+
+/* ------------------------------------------------------------------ client_receive: one request, ARBITRARY bytes of ARBITRARY length
+ * xv_ctl_recv_rc is what recv(2) returned (-1 | 0..sizeof msg), xv_ctl_req_type the type field of the datagram,
+ * xv_ctl_req_key / xv_ctl_req_cstr what its attr_name[64] held. */
+#define CR_GHOSTS xv_ctl_readable_calls, xv_ctl_readable, xv_ctl_recv_calls, xv_ctl_recv_fd, xv_ctl_recv_rc, xv_ctl_recv_errno, xv_ctl_req_type, xv_ctl_req_cstr, xv_ctl_req_key, \
+                  xv_ctl_get_rv, xv_ctl_get_errno, xv_ctl_get_type, xv_ctl_get_j, xv_ctl_get_calls, XV_CTL_ALL_GHOSTS
+#define CR_FULL (xv_ctl_readable && xv_ctl_recv_rc == (long)CTL_MSG_SIZE)
+#define CR_NO_ATTR_CALL (CTL_SAME(xv_ctl_get_calls) && CTL_SAME(xv_ctl_all_calls))
+#define CR_UNTOUCHED(client) ((client)->is_response_pending == __CPROVER_old((client)->is_response_pending) && CR_NO_ATTR_CALL)
+static int client_receive(struct client *client, struct ctl *ctl)
+__CPROVER_requires(XV_CTL_Z_LO)
+__CPROVER_requires(XV_CTL_Z_HI)
+__CPROVER_requires(CTL_MEM(ctl) && CTL_INV(ctl) && CTL_SESSION(client, ctl) && CTL_GHOST_RANGE && CTL_FOREIGN(ctl) && !client->is_response_pending)
+__CPROVER_assigns(CTL_EP_GHOSTS, CR_GHOSTS, client->is_response_pending, __CPROVER_object_upto(&client->pending_response, XV_CTL_SIZEOF(client->pending_response)))
+__CPROVER_ensures((__CPROVER_return_value == 0 || __CPROVER_return_value == -1) && CTL_INV(ctl) && CTL_FOREIGN(ctl))
+__CPROVER_ensures(CTL_INC(xv_ctl_readable_calls) && (xv_ctl_readable ? (CTL_INC(xv_ctl_recv_calls) && xv_ctl_recv_fd == client->fd) : CTL_SAME(xv_ctl_recv_calls)))
+/* PO[C14] client_receive.nothing_to_read */
+__CPROVER_ensures((!xv_ctl_readable || (xv_ctl_recv_rc == -1 && xv_ctl_recv_errno == EAGAIN)) ==> \
+                  (__CPROVER_return_value == 0 && CR_UNTOUCHED(client) && CTL_SAME(xv_ctl_ep_ops)))
+/* PO[C14] client_receive.malformed_or_gone_is_dropped */
+__CPROVER_ensures((xv_ctl_readable && ((xv_ctl_recv_rc == -1 && xv_ctl_recv_errno != EAGAIN) || (xv_ctl_recv_rc >= 0 && xv_ctl_recv_rc != (long)CTL_MSG_SIZE))) ==> \
+                  (__CPROVER_return_value == -1 && CR_UNTOUCHED(client) && CTL_SAME(xv_ctl_ep_ops)))
+/* PO[C14] client_receive.unknown_type_is_dropped */
+__CPROVER_ensures((CR_FULL && xv_ctl_req_type != ctl_proto_type_get_attr_req && xv_ctl_req_type != ctl_proto_type_get_all_attr_req) ==> \
+                  (__CPROVER_return_value == -1 && !client->is_response_pending && CR_NO_ATTR_CALL))
+/* PO[C14] client_receive.get_attr_reply */
+__CPROVER_ensures((CR_FULL && xv_ctl_req_type == ctl_proto_type_get_attr_req) ==> (__CPROVER_return_value == 0 && client->is_response_pending && \
+        xv_ctl_ev[client->fd_reg_id] == EPOLLOUT && CTL_SAME(xv_ctl_all_calls) && \
+        (client->pending_response.type == ctl_proto_type_get_attr_cfm || client->pending_response.type == ctl_proto_type_get_attr_rej) && \
+        ((xv_ctl_req_cstr && !xv_ctl_req_key) ==> (CTL_INC(xv_ctl_get_calls) && (xv_ctl_get_rv >= 0 \
+            ? (client->pending_response.type == ctl_proto_type_get_attr_cfm && PGA_CFM(&client->pending_response).value_len == (size_t)xv_ctl_get_rv && \
+               (int)PGA_CFM(&client->pending_response).value_type == xv_ctl_get_type && \
+               (xv_ctl_j < (size_t)xv_ctl_get_rv ==> PGA_CFM(&client->pending_response).any_value[xv_ctl_j] == xv_ctl_get_j)) \
+            : (client->pending_response.type == ctl_proto_type_get_attr_rej && client->pending_response.get_attr_rej.rej_errno == xv_ctl_get_errno)))) && \
+        (!xv_ctl_req_cstr ==> (client->pending_response.type == ctl_proto_type_get_attr_rej && CTL_SAME(xv_ctl_get_calls)))))
+/* PO[C14] client_receive.tls_key_never_disclosed */
+__CPROVER_ensures((CR_FULL && xv_ctl_req_type == ctl_proto_type_get_attr_req && xv_ctl_req_key) ==> \
+        (client->pending_response.type == ctl_proto_type_get_attr_rej && client->pending_response.get_attr_rej.rej_errno == EACCES && \
+         (xv_ctl_j < CTL_ATTR_VALUE_MAX ==> PGA_CFM(&client->pending_response).any_value[xv_ctl_j] == 0)))
+/* PO[C14] client_receive.get_all_reply */
+__CPROVER_ensures((CR_FULL && xv_ctl_req_type == ctl_proto_type_get_all_attr_req) ==> (__CPROVER_return_value == 0 && client->is_response_pending && \
+        xv_ctl_ev[client->fd_reg_id] == EPOLLOUT && CTL_SAME(xv_ctl_get_calls) && CTL_INC(xv_ctl_all_calls) && \
+        client->pending_response.type == ctl_proto_type_get_all_attr_cfm && \
+        PGAA_CFM(&client->pending_response).attrs_len == (xv_ctl_all_n < CTL_PROTO_MAX_ATTRS ? xv_ctl_all_n : CTL_PROTO_MAX_ATTRS) && \
+        XV_CTL_ALL_ENTRY_I(&PGAA_CFM(&client->pending_response))))
+;
+
+/* ------------------------------------------------------------------ process_client: send if a reply is pending, else receive */
+static int process_client(struct client *client, struct ctl *ctl)
+__CPROVER_requires(XV_CTL_Z_LO)
+__CPROVER_requires(XV_CTL_Z_HI)
+__CPROVER_requires(CTL_MEM(ctl) && CTL_INV(ctl) && CTL_SESSION(client, ctl) && CTL_GHOST_RANGE && CTL_FOREIGN(ctl))
+__CPROVER_assigns(CTL_EP_GHOSTS, CS_GHOSTS, CR_GHOSTS, client->is_response_pending, __CPROVER_object_upto(&client->pending_response, XV_CTL_SIZEOF(client->pending_response)))
+__CPROVER_ensures((__CPROVER_return_value == 0 || __CPROVER_return_value == -1) && CTL_INV(ctl) && CTL_FOREIGN(ctl))
+/* PO[C14] process_client.one_step_per_session */
+__CPROVER_ensures(__CPROVER_old(client->is_response_pending) \
+        ? (CTL_INC(xv_ctl_send_calls) && CTL_SAME(xv_ctl_recv_calls) && CR_NO_ATTR_CALL && xv_ctl_send_buf == &client->pending_response) \
+        : (CTL_SAME(xv_ctl_send_calls) && xv_ctl_recv_calls <= __CPROVER_old(xv_ctl_recv_calls) + 1))
+;
+
+/* ------------------------------------------------------------------ accept_client: room for one more session */
+#define AC_GHOSTS xv_ctl_readable_calls, xv_ctl_readable, xv_ctl_accept_rc, xv_ctl_fds_made
+#define AC_NEW(ctl) CTL_C(ctl, __CPROVER_old((ctl)->num_clients))
+static void accept_client(struct ctl *ctl)
+__CPROVER_requires(XV_CTL_Z_LO)
+__CPROVER_requires(XV_CTL_Z_HI)
+__CPROVER_requires(CTL_MEM(ctl) && CTL_INV(ctl) && CTL_GHOST_RANGE && CTL_FOREIGN(ctl) && ctl->num_clients < MAX_CLIENTS)
+__CPROVER_assigns(CTL_EP_GHOSTS, AC_GHOSTS, ctl->num_clients)
+__CPROVER_assigns(CTL_C(ctl, ctl->num_clients).fd, CTL_C(ctl, ctl->num_clients).fd_reg_id, CTL_C(ctl, ctl->num_clients).is_response_pending)
+__CPROVER_ensures(CTL_INV(ctl) && CTL_FOREIGN(ctl) && CTL_INC(xv_ctl_readable_calls))
+/* PO[C14] accept_client.table_bound */
+__CPROVER_ensures((xv_ctl_readable && xv_ctl_accept_rc >= 0) \
+        ? (ctl->num_clients == __CPROVER_old(ctl->num_clients) + 1 && ctl->num_clients <= MAX_CLIENTS && AC_NEW(ctl).fd == xv_ctl_accept_rc && \
+           !AC_NEW(ctl).is_response_pending && xv_ctl_ev[AC_NEW(ctl).fd_reg_id] == EPOLLIN && \
+           (ctl->num_clients == MAX_CLIENTS ==> xv_ctl_ev[ctl->server_fd_reg_id] == 0)) \
+        : (CTL_SAME(ctl->num_clients) && CTL_SAME(xv_ctl_ep_ops)))
+;
+
+/* ------------------------------------------------------------------ remove_client: close one session, keep the other intact */
+#define RC_GHOSTS xv_ctl_close_calls, xv_ctl_closed_fd
+int xv_ctl_g_fd, xv_ctl_g_reg;                  /* ghost constants: descriptor / registration id of the session being removed */
+int xv_ctl_g_ofd, xv_ctl_g_oreg; _Bool xv_ctl_g_opend; uint8_t xv_ctl_g_oj;   /* ... and of the OTHER session (fd, reg, pending flag, reply byte xv_ctl_j) */
+#define RC_OTHER(ctl, idx) CTL_C(ctl, 1 - (idx))
+static void remove_client(struct ctl *ctl, int client_idx)
+__CPROVER_requires(XV_CTL_Z_LO)
+__CPROVER_requires(XV_CTL_Z_HI)
+__CPROVER_requires(CTL_MEM(ctl) && CTL_INV(ctl) && CTL_GHOST_RANGE && CTL_FOREIGN(ctl) && client_idx >= 0 && client_idx < ctl->num_clients)
+__CPROVER_requires(CTL_C(ctl, client_idx).fd == xv_ctl_g_fd && CTL_C(ctl, client_idx).fd_reg_id == xv_ctl_g_reg)
+__CPROVER_requires(ctl->num_clients == 2 ==> (RC_OTHER(ctl, client_idx).fd == xv_ctl_g_ofd && RC_OTHER(ctl, client_idx).fd_reg_id == xv_ctl_g_oreg && \
+        RC_OTHER(ctl, client_idx).is_response_pending == xv_ctl_g_opend && \
+        (xv_ctl_j < CTL_MSG_SIZE ==> ((const uint8_t *)&RC_OTHER(ctl, client_idx).pending_response)[xv_ctl_j] == xv_ctl_g_oj)))
+__CPROVER_assigns(CTL_EP_GHOSTS, RC_GHOSTS, ctl->num_clients, __CPROVER_object_upto(&CTL_C(ctl, 0), XV_CTL_SIZEOF(struct client)))
+__CPROVER_ensures(CTL_INV(ctl) && CTL_FOREIGN(ctl))
+/* PO[C14] remove_client.session_closed */
+__CPROVER_ensures(ctl->num_clients == __CPROVER_old(ctl->num_clients) - 1 && CTL_INC(xv_ctl_close_calls) && xv_ctl_closed_fd == xv_ctl_g_fd && \
+                  !xv_ctl_live[xv_ctl_g_reg])
+/* PO[C14] remove_client.other_session_intact */
+__CPROVER_ensures(ctl->num_clients == 1 ==> (CTL_C(ctl, 0).fd == xv_ctl_g_ofd && CTL_C(ctl, 0).fd_reg_id == xv_ctl_g_oreg && \
+        CTL_C(ctl, 0).is_response_pending == xv_ctl_g_opend && \
+        (xv_ctl_j < CTL_MSG_SIZE ==> ((const uint8_t *)&CTL_C(ctl, 0).pending_response)[xv_ctl_j] == xv_ctl_g_oj)))
+;
+
+/* ------------------------------------------------------------------ ctl_process (public, self-recursive)
+ * PASSIVE: assigns struct ctl's session table (not its header, not the socket), its xpoll registrations, and ghost
+ * records of the system calls made; errno is what it was. */
+void ctl_process(struct ctl *ctl)
+__CPROVER_requires(XV_CTL_Z_LO)
+__CPROVER_requires(XV_CTL_Z_HI)
+__CPROVER_requires(CTL_MEM(ctl) && CTL_INV(ctl) && CTL_GHOST_RANGE && CTL_FOREIGN(ctl))
+__CPROVER_assigns(CTL_EP_GHOSTS, CS_GHOSTS, CR_GHOSTS, AC_GHOSTS, RC_GHOSTS, xv_ctl_g_fd, xv_ctl_g_reg, xv_ctl_g_ofd, xv_ctl_g_oreg, xv_ctl_g_opend, xv_ctl_g_oj, xv_ctl_ci, \
+                  ctl->num_clients, __CPROVER_object_upto(&ctl->clients, XV_CTL_SIZEOF(ctl->clients)))
+/* PO[C14] ctl_process.table_invariant */
+__CPROVER_ensures(CTL_INV(ctl) && ctl->num_clients >= 0 && ctl->num_clients <= MAX_CLIENTS)
+/* PO[C14] ctl_process.errno_restored */
+__CPROVER_ensures(xv_errno == __CPROVER_old(xv_errno))
+/* PO[C14] ctl_process.data_path_registrations_untouched */
+__CPROVER_ensures(CTL_FOREIGN(ctl))
 ;
 
 #include "contracts/end.h"
